@@ -12,7 +12,7 @@ PROPS = {}
 PROPS['C16'] = dict(
     modules=['Vivid.Props.C16', 'Vivid.Tie.VVConstants'],
     gens=['constants'],
-    engines=[dict(name='vv', must_hit=['cmp:equal', 'cmp:before', 'cmp:after', 'cmp:concurrent', 'err:overflow', 'err:invalid', 'prune:truncated'])],
+    engines=[dict(name='vv', must_hit=['cmp:equal', 'cmp:before', 'cmp:after', 'cmp:concurrent', 'err:overflow', 'err:invalid', 'prune:truncated', 'wide:over-limit'])],
     rule='vv: every pair of vectors over <=3 keys x {absent,0,1,2,max-1,max} (exhaustive: compare+merge), every increment on each of them x '
          '{present, absent, empty, 256- and 257-byte names}, then seeded random vectors over 12 names incl. prune with random limits; '
          'a case is non-trivial when both operands are non-empty and differ (pairs) or is an increment/prune; distinct = distinct op-line lists',
@@ -121,7 +121,7 @@ for _pid, _only, _must in [
     ('C03', r'LOST-USER-MESSAGE|AFTER-STOP|ended twice|PANIC|LOST WAKE-UP|FATAL', ['ev:dead-letter', 'stash:dec1:hooks0', 'stash:dec1:hooks1', 'stash:dec2', 'stash:dec3', 'stash:dec5', 'stash:deck']),
     ('C05', r'LIFECYCLE|LAUNCH-TWICE|RESTART-NO-LAUNCH|STALE-INSTANCE|PANIC|FATAL', ['ev:restarted', 'ev:zombie', 'ev:spawn-err:prelaunch']),
     ('C06', r'KILL-ONCE|CHILDREN-FIRST|NOT-RELEASED|HALF-STOPPED|PANIC|FATAL', ['ev:killed-event', 'ev:spawn-err:exists', 'ev:spawn-err:dead']),
-    ('C08', r'DECIDE-TWICE|SUPERVISION-WHILE-STOPPING|PANIC|FATAL', ['ev:decide:1', 'ev:decide:2', 'ev:decide:3', 'ev:decide:4', 'ev:decide:5', 'ev:decide:6', 'matrix:', 'escal:kindM1:depth1', 'escal:kindM2:depth1', 'escal:kindM2:depth2']),
+    ('C08', r'DECIDE-TWICE|SUPERVISION-WHILE-STOPPING|STAYS-PAUSED|HALF-STOPPED|PANIC|FATAL', ['ev:decide:1', 'ev:decide:2', 'ev:decide:3', 'ev:decide:4', 'ev:decide:5', 'ev:decide:6', 'matrix:', 'escal:kindM1:depth1', 'escal:kindM2:depth1', 'escal:kindM2:depth2']),
     ('C09', r'STAYS-PAUSED|HALF-STOPPED|NO-ANSWER|ZOMBIE-RUNS-USER-CODE|PANIC|FATAL', ['ev:restarted', 'ev:zombie', 'ev:decide:5', 'ev:decide:2', 'ev:decide:4', 'escal:kindM1:depth1', 'escal:kindM2:depth1', 'escal:kindM2:depth2', 'escal:dec5', 'escal:dec4', 'escal:dec2']),
     ('C19', r'ES-TABLES|EVENT-TWICE|EVENT-NOT-SUBSCRIBED|EVENT-MISSED|PANIC|FATAL', ['ev:es-sub', 'ev:es-unsub', 'ev:es-unsuball', 'ev:es-pub-with-subscribers']),
 ]:
@@ -142,7 +142,9 @@ PROPS['C19']['modules'] = ['Vivid.Props.C19', 'Vivid.Props.C19C20Global']
 PROPS['C09']['modules'] = ['Vivid.Props.C09', 'Vivid.Props.C09Global']
 PROPS['C08']['modules'] = ['Vivid.Props.C08', 'Vivid.Props.C08Frame']
 PROPS['C03']['modules'] = ['Vivid.Props.C03', 'Vivid.Props.C03Global', 'Vivid.Props.C03Exact', 'Vivid.Props.C09Global']
-PROPS['C06']['engines'].append(dict(name='killorder', nomodel=True, must_hit=['variant:0', 'variant:3', 'variant:7', 'variant:15']))
+PROPS['C06']['engines'].append(dict(name='killorder', nomodel=True, only=r'NOT-RELEASED|CHILDREN-FIRST|HARNESS|PANIC|FATAL', must_hit=['variant:0', 'variant:3', 'variant:7', 'variant:15']))
+# C19 shares the kill-order probe: subscriptions of a re-created namesake while the dead instance is still cleaning up
+PROPS['C19']['engines'].append(dict(name='killorder', nomodel=True, only=r'SUBSCRIPTION-LOST|SUBSCRIPTION-LEFT|HARNESS|PANIC|FATAL', must_hit=['variant:0', 'variant:3', 'variant:7', 'variant:15']))
 PROPS['C06']['rule'] = AS_RULE + (' killorder (monitor only): parent + fixed-name child (optionally with a grandchild, a watcher, poison, two ActorKilledEvent subscribers) under the baton with extra scheduling points after each '
                                   'notification group of the termination clean-up (yield sites kh.*), seeded random schedules (12 / thorough 200 per variant x 16 variants): whenever a parent or watcher observes OnKilled{X}, '
                                   'that very actor X and all its doomed descendants are already unregistered and the parent can re-create the child under the same name.')
@@ -163,7 +165,7 @@ PROPS['C20'] = dict(
 PROPS['C07'] = dict(
     modules=['Vivid.Props.C07'],
     gens=[],
-    engines=[dict(name='sysfsm', must_hit=['ret:ok', 'ret:already-started', 'ret:already-stopped', 'ret:not-started', 'conc', 'census', 'cancel-before-start'])],
+    engines=[dict(name='sysfsm', must_hit=['ret:ok', 'ret:already-started', 'ret:already-stopped', 'ret:not-started', 'conc', 'census', 'slowstop', 'cancel-before-start'])],
     rule='sysfsm: real actor.System instances with real goroutines. (1) every sequential history of <= 3 (thorough 4) calls from {Start, Stop, cancel the context}: return value and status compared with the model after each call, '
          'each call under a 1.5 s watchdog (BLOCKED / LOCKED are observations); (2) every pair of calls released concurrently after the prefixes [], [Start], [Start, Stop], repeated: every call must return, at most one Start / one Stop returns nil; '
          '(3) goroutine census (frames under vivid / go-quartz) after a Start/Stop cycle. Non-trivial = every case; distinct = distinct call lists.',
@@ -194,7 +196,7 @@ FRAME_HITS = ['coalesced', 'split-1', 'byte-by-byte', 'split-random', 'cut', 'un
 PROPS['C11'] = dict(
     modules=['Vivid.Props.C11'],
     gens=[],
-    engines=[dict(name='framing', must_hit=FRAME_HITS + ['burst'])],
+    engines=[dict(name='framing', must_hit=FRAME_HITS + ['burst', 'burst:first-concurrent'])],
     rule='framing: (rx) a real tcpConnectionActor spawned in a real system reads from a net.Pipe whose writer delivers a byte stream in exactly the chunks given — every frame boundary pattern: all frames in one read, '
          'one byte per read, every 2-split of short streams, seeded random splits, payloads up to just under 4 MiB — and the decoded envelopes / decode failures / invalid lengths / fatal reads are compared, in order, with the model receiver; '
          '(burst) two real systems over loopback TCP, 1-4 concurrent senders x 200-5000 messages (pad 0-2 KiB): per-sender order, exactly once, intact payload, sender reference (monitor only). Non-trivial = every case.',
@@ -256,7 +258,7 @@ PROPS['C10'] = dict(
 PROPS['C15'] = dict(
     modules=['Vivid.Props.C15', 'Vivid.Tie.Registry'],
     gens=['registry'],
-    engines=[dict(name='transp', must_hit=['op:tell', 'op:tellv', 'op:ask', 'op:kill', 'op:poison', 'op:watch', 'op:unwatch', 'op:watch-twin', 'op:unwatch-twin', 'op:ping', 'op:pipe-ok', 'op:pipe-fail', 'loc:remote', 'cfg:codec', 'cfg:registered'])],
+    engines=[dict(name='transp', must_hit=['op:tell', 'op:tellv', 'op:ask', 'op:kill', 'op:poison', 'op:watch', 'op:unwatch', 'op:watch-twin', 'op:unwatch-twin', 'op:ping', 'op:pipe-ok', 'op:pipe-fail', 'op:pipe-err', 'loc:remote', 'cfg:codec', 'cfg:registered'])],
     rule='transp: two real systems over loopback TCP, once with a user Codec and once with RegisterCustomMessage; every ActorRef-taking operation (Tell of a pointer and of a value message, Ask/Reply, Kill graceful and poison, Watch, Unwatch, Ping, '
          'PipeTo with success and with failure results x local/remote forwarder) is executed from inside an actor against a local and against a remote target. Observation: the effects seen by the actors involved (messages with sender role, OnKill fields, '
          'termination, OnKilled.Ref, Pong, PipeResult content; references are rendered by role and checked to carry the address of the system the actor lives on) and the built-in message types the remoting layer reports as sent. Compared with the model, '
